@@ -70,7 +70,9 @@ theorem euler_to_u_isRot_laue (φ1 Φ φ2 : ℝ) : IsRot (Laue.euler_to_u φ1 Φ
 /-! ### 2. omega matrices -/
 
 /-- C03: `form_omega_mat ω = Rz ω`. -/
-theorem form_omega_mat_eq (ω : ℝ) : Tools.form_omega_mat ω = Rz ω := rfl
+theorem form_omega_mat_eq (ω : ℝ) : Tools.form_omega_mat ω = Rz ω := by
+  -- entrywise (not `rfl`): tolerates `let`-bound `cos ω`/`sin ω` and re-associated entries
+  ext i j; fin_cases i <;> fin_cases j <;> simp [Tools.form_omega_mat, Rz]
 
 /-- C03: `form_omega_mat ω` is a proper rotation. -/
 theorem form_omega_mat_isRot (ω : ℝ) : IsRot (Tools.form_omega_mat ω) := by
@@ -79,15 +81,19 @@ theorem form_omega_mat_isRot (ω : ℝ) : IsRot (Tools.form_omega_mat ω) := by
 /-- C03: `form_omega_mat_general ω χ w = Rx χ · Ry w · Rz ω`. -/
 theorem form_omega_mat_general_eq (ω χ w : ℝ) :
     Tools.form_omega_mat_general ω χ w = Rx χ * Ry w * Rz ω := by
-  simp only [Tools.form_omega_mat_general, form_omega_mat_eq, Matrix.mul_assoc]
-  rfl
+  -- the inline `phi_x`, `phi_y` literals are identified with `Rx`, `Ry` entrywise (not by `rfl`), so
+  -- the names/number of `let`s and the association of the product do not matter
+  simp only [Tools.form_omega_mat_general, form_omega_mat_eq]
+  ext i j; fin_cases i <;> fin_cases j <;>
+    simp [Rx, Ry, Rz, Matrix.mul_apply, Fin.sum_univ_three] <;> ring
 
 /-- C03: `form_omega_mat_general` is a proper rotation. -/
 theorem form_omega_mat_general_isRot (ω χ w : ℝ) : IsRot (Tools.form_omega_mat_general ω χ w) := by
   rw [form_omega_mat_general_eq]; exact ((Rx_isRot _).mul (Ry_isRot _)).mul (Rz_isRot _)
 
 /-- C03 (laue): `form_omega_mat ω = Rz ω`. -/
-theorem form_omega_mat_eq_laue (ω : ℝ) : Laue.form_omega_mat ω = Rz ω := rfl
+theorem form_omega_mat_eq_laue (ω : ℝ) : Laue.form_omega_mat ω = Rz ω := by
+  ext i j; fin_cases i <;> fin_cases j <;> simp [Laue.form_omega_mat, Rz]
 
 /-- C03 (laue): `form_omega_mat ω` is a proper rotation. -/
 theorem form_omega_mat_isRot_laue (ω : ℝ) : IsRot (Laue.form_omega_mat ω) := by
@@ -107,8 +113,9 @@ theorem form_omega_mat_general_isRot_laue (ω χ w : ℝ) :
 
 /-- C03: `detect_tilt tx ty tz = Rx tx · Ry ty · Rz tz`. -/
 theorem detect_tilt_eq (tx ty tz : ℝ) : Tools.detect_tilt tx ty tz = Rx tx * Ry ty * Rz tz := by
-  simp only [Tools.detect_tilt, Matrix.mul_assoc]
-  rfl
+  simp only [Tools.detect_tilt]
+  ext i j; fin_cases i <;> fin_cases j <;>
+    simp [Rx, Ry, Rz, Matrix.mul_apply, Fin.sum_univ_three] <;> ring
 
 /-- C03: `detect_tilt` is a proper rotation. -/
 theorem detect_tilt_isRot (tx ty tz : ℝ) : IsRot (Tools.detect_tilt tx ty tz) := by
@@ -273,7 +280,29 @@ theorem rod_axis_unit (r : Fin 3 → ℝ) (hr : r ≠ 0) :
 
 /-! ### 6. `u_to_rod ∘ rod_to_u = id` -/
 
+/-- closes a leaf of an unfolded decision tree against its readable form: `none = none` / `some v = some v'`
+syntactically, or entrywise up to `ring`, or the leaf sits under contradictory guards -/
+macro "c03_euler_leaf" : tactic => `(tactic|
+  first
+    | rfl
+    | (simp only [Option.some.injEq]; ext i; fin_cases i <;> simp <;> ring1)
+    | (exfalso; linarith)
+    | (exfalso; ring_nf at *; first | contradiction | linarith | (simp_all; done) | (simp_all; linarith)))
+
 namespace C03
+
+set_option linter.unusedTactic false in
+set_option linter.unreachableTactic false in
+/-- readable form of the generated `u_to_rod`; the only place where `Tools.u_to_rod` is unfolded -/
+lemma u_to_rod_eq (U : Matrix (Fin 3) (Fin 3) ℝ) : Tools.u_to_rod U =
+    if |1 + U 0 0 + U 1 1 + U 2 2| < (1e-16 : ℝ) then none
+    else some ![(U 1 2 - U 2 1) * (1 / (1 + U 0 0 + U 1 1 + U 2 2)),
+                (U 2 0 - U 0 2) * (1 / (1 + U 0 0 + U 1 1 + U 2 2)),
+                (U 0 1 - U 1 0) * (1 / (1 + U 0 0 + U 1 1 + U 2 2))] := by
+  unfold Tools.u_to_rod
+  simp only []
+  -- (`simp only []` already closes the goal when the generated tree coincides with the readable form)
+  all_goals (split_ifs <;> c03_euler_leaf)
 
 lemma rod_to_u_trace (r : Fin 3 → ℝ) :
     1 + Tools.rod_to_u r 0 0 + Tools.rod_to_u r 1 1 + Tools.rod_to_u r 2 2 = 4 / (1 + r ⬝ᵥ r) := by
@@ -296,9 +325,7 @@ theorem u_to_rod_rod_to_u_sharp (r : Fin 3 → ℝ) (h : 1 + r ⬝ᵥ r ≤ 4e16
     rw [htr, abs_of_pos (by positivity), not_lt, le_div_iff₀ hpos]
     norm_num at h ⊢
     linarith
-  unfold Tools.u_to_rod
-  simp only []
-  rw [if_neg hguard, htr]
+  rw [C03.u_to_rod_eq, if_neg hguard, htr]
   congr 1
   have hne : 1 + r ⬝ᵥ r ≠ 0 := ne_of_gt hpos
   simp only [dotProduct, Fin.sum_univ_three] at hne
@@ -326,9 +353,7 @@ theorem u_to_rod_rod_to_u_none (r : Fin 3 → ℝ) (h : 4e16 < 1 + r ⬝ᵥ r) :
     rw [htr, abs_of_pos (by positivity), div_lt_iff₀ hpos]
     norm_num at h ⊢
     linarith
-  unfold Tools.u_to_rod
-  simp only []
-  rw [if_pos hguard]
+  rw [C03.u_to_rod_eq, if_pos hguard]
 
 /-! #### laue twins of 5 and 6 -/
 
@@ -385,7 +410,15 @@ theorem arctan2_eq (y x : ℝ) : Tools._arctan2 y x =
     else if 0 < y then some (Real.pi / 2) else if y < 0 then some (-Real.pi / 2) else none := by
   unfold Tools._arctan2
   simp only [gt_iff_lt, ge_iff_le]
-  split_ifs <;> first | rfl | (exfalso; linarith) | (exfalso; apply ‹¬x = 0›; linarith)
+  -- every leaf is `some a = some b` (closed up to ring-normalisation, so that `-π/2`, `-(π/2)`,
+  -- a hoisted `half_pi`, ... are all accepted), `none = none`, or sits under contradictory guards.
+  split_ifs <;> first
+    | rfl
+    | (simp only [Option.some.injEq]; ring1)
+    | (exfalso; linarith)
+    | (exfalso
+       rcases lt_trichotomy x 0 with hx | hx | hx <;> rcases lt_trichotomy y 0 with hy | hy | hy <;>
+         first | linarith | contradiction)
 
 namespace C03
 
@@ -537,40 +570,6 @@ lemma wrap_range {t : ℝ} (h1 : -Real.pi < t) (h2 : t ≤ Real.pi) :
 
 end C03
 
-/-- C03: `u_to_euler` returns angles in `[0,2π] × [0,π] × [0,2π]`. -/
-theorem u_to_euler_range {U : Matrix (Fin 3) (Fin 3) ℝ} {e : Fin 3 → ℝ}
-    (h : Tools.u_to_euler U = some e) :
-    (0 ≤ e 0 ∧ e 0 ≤ 2 * Real.pi) ∧ (0 ≤ e 1 ∧ e 1 ≤ Real.pi) ∧ (0 ≤ e 2 ∧ e 2 ≤ 2 * Real.pi) := by
-  have hp := Real.pi_pos
-  have hP0 := Real.arccos_nonneg (U 2 2)
-  have hP1 := Real.arccos_le_pi (U 2 2)
-  unfold Tools.u_to_euler at h
-  simp only [] at h
-  split at h
-  · split at h
-    · cases h
-    · rename_i t ht
-      obtain ⟨hr1, hr2⟩ := arctan2_range ht
-      split at h <;> simp only [Option.some.injEq] at h <;> subst h <;>
-        refine ⟨⟨?_, ?_⟩, ⟨?_, ?_⟩, ⟨?_, ?_⟩⟩ <;> (try simp) <;> (try linarith)
-  · split at h
-    · split at h
-      · cases h
-      · rename_i t ht
-        obtain ⟨hr1, hr2⟩ := arctan2_range ht
-        split at h <;> simp only [Option.some.injEq] at h <;> subst h <;>
-          refine ⟨⟨?_, ?_⟩, ⟨?_, ?_⟩, ⟨?_, ?_⟩⟩ <;> (try simp) <;> (try linarith)
-    · split at h
-      · cases h
-      · rename_i t ht
-        obtain ⟨hr1, hr2⟩ := arctan2_range ht
-        split at h
-        · cases h
-        · rename_i t2 ht2
-          obtain ⟨hs1, hs2⟩ := arctan2_range ht2
-          split at h <;> split at h <;> simp only [Option.some.injEq] at h <;> subst h <;>
-            refine ⟨⟨?_, ?_⟩, ⟨?_, ?_⟩, ⟨?_, ?_⟩⟩ <;> (try simp) <;> (try linarith)
-
 namespace C03
 /-- `phi + 2π if phi < 0` -/
 def wrap (t : ℝ) : ℝ := if t < 0 then t + 2 * Real.pi else t
@@ -588,19 +587,46 @@ theorem u_to_euler_eq (U : Matrix (Fin 3) (Fin 3) ℝ) : Tools.u_to_euler U =
         (Tools._arctan2 (U 2 0) (U 2 1)).map fun t2 => ![wrap t1, Real.arccos (U 2 2), wrap t2] := by
   unfold Tools.u_to_euler wrap
   simp only []
+  -- leaves: `some ![..] = some ![..]`, compared entrywise up to ring normalisation (so `t + 2*π`,
+  -- `t + two_pi`, `2*π + t` are all accepted), or contradictory `t < 0` guards
   split_ifs
   · cases Tools._arctan2 (-(U 0 1)) (U 0 0) with
     | none => rfl
-    | some t => simp only [Option.map_some]; split_ifs <;> rfl
+    | some t => simp only [Option.map_some]; split_ifs <;> c03_euler_leaf
   · cases Tools._arctan2 (U 0 1) (U 0 0) with
     | none => rfl
-    | some t => simp only [Option.map_some]; split_ifs <;> rfl
+    | some t => simp only [Option.map_some]; split_ifs <;> c03_euler_leaf
   · cases Tools._arctan2 (U 0 2) (-(U 1 2)) with
     | none => rfl
     | some t =>
       cases Tools._arctan2 (U 2 0) (U 2 1) with
       | none => rfl
-      | some t2 => simp only [Option.map_some, Option.bind_some]; split_ifs <;> rfl
+      | some t2 => simp only [Option.map_some, Option.bind_some]; split_ifs <;> c03_euler_leaf
+
+
+/-- C03: `u_to_euler` returns angles in `[0,2π] × [0,π] × [0,2π]`. -/
+theorem u_to_euler_range {U : Matrix (Fin 3) (Fin 3) ℝ} {e : Fin 3 → ℝ}
+    (h : Tools.u_to_euler U = some e) :
+    (0 ≤ e 0 ∧ e 0 ≤ 2 * Real.pi) ∧ (0 ≤ e 1 ∧ e 1 ≤ Real.pi) ∧ (0 ≤ e 2 ∧ e 2 ≤ 2 * Real.pi) := by
+  have hp := Real.pi_pos
+  have hP0 := Real.arccos_nonneg (U 2 2)
+  have hP1 := Real.arccos_le_pi (U 2 2)
+  have W : ∀ {y x t : ℝ}, Tools._arctan2 y x = some t → 0 ≤ wrap t ∧ wrap t ≤ 2 * Real.pi :=
+    fun ht => wrap_range (arctan2_range ht).1 (arctan2_range ht).2
+  -- argue on the readable form only: independent of the shape of the generated decision tree
+  rw [u_to_euler_eq] at h
+  split_ifs at h
+  · obtain ⟨t, ht, rfl⟩ := Option.map_eq_some_iff.mp h
+    have := W ht
+    refine ⟨⟨?_, ?_⟩, ⟨?_, ?_⟩, ⟨?_, ?_⟩⟩ <;> simp <;> linarith
+  · obtain ⟨t, ht, rfl⟩ := Option.map_eq_some_iff.mp h
+    have := W ht
+    refine ⟨⟨?_, ?_⟩, ⟨?_, ?_⟩, ⟨?_, ?_⟩⟩ <;> simp <;> linarith
+  · obtain ⟨t1, ht1, h'⟩ := Option.bind_eq_some_iff.mp h
+    obtain ⟨t2, ht2, rfl⟩ := Option.map_eq_some_iff.mp h'
+    have := W ht1
+    have := W ht2
+    refine ⟨⟨?_, ?_⟩, ⟨?_, ?_⟩, ⟨?_, ?_⟩⟩ <;> simp <;> linarith
 
 
 /-! ### 7. `rod_to_u ∘ u_to_rod = id` on proper rotations -/
@@ -673,8 +699,7 @@ end C03
 theorem rod_to_u_u_to_rod {U : Matrix (Fin 3) (Fin 3) ℝ} (hU : IsRot U) {r : Fin 3 → ℝ}
     (h : Tools.u_to_rod U = some r) : Tools.rod_to_u r = U := by
   have R := C03.rotRel hU
-  unfold Tools.u_to_rod at h
-  simp only [] at h
+  rw [C03.u_to_rod_eq] at h
   split_ifs at h with hg
   simp only [Option.some.injEq] at h
   subst h
@@ -724,9 +749,7 @@ theorem rod_to_u_u_to_rod_exists {U : Matrix (Fin 3) (Fin 3) ℝ} (hU : IsRot U)
     (hg : (1e-16 : ℝ) ≤ |1 + U 0 0 + U 1 1 + U 2 2|) :
     ∃ r, Tools.u_to_rod U = some r ∧ Tools.rod_to_u r = U := by
   have : ∃ r, Tools.u_to_rod U = some r := by
-    unfold Tools.u_to_rod
-    simp only []
-    rw [if_neg (not_lt.mpr hg)]
+    rw [C03.u_to_rod_eq, if_neg (not_lt.mpr hg)]
     exact ⟨_, rfl⟩
   obtain ⟨r, hr⟩ := this
   exact ⟨r, hr, rod_to_u_u_to_rod hU hr⟩
